@@ -6,6 +6,12 @@ Model of `cashews/decorators/cache/soft.py` as reached through
 Always used with an explicit non-zero `soft_ttl` (`soft_ttl or ttl * 0.33` is a float product
 outside this model).  Boundary mirrored from the code, not judged: at *exactly* `soft_ttl` the
 result is recomputed (`soft_expire_at > now` is required for serving).
+
+Order in time: `cached = await backend.get(key)` and the comparison of `soft_expire_at` with the clock happen when the
+call begins; then `await func(...)` takes `d` ticks; the `except exceptions:` handler reads the store AGAIN
+(`cached = await backend.get(_cache_key, default=_empty)`: "the call may have taken a while: what was read before it can
+have expired meanwhile" — the repair of D39) and falls back to what it finds THEN; the `else:` branch stamps
+`soft_expire_at` and stores after the function returned.
 -/
 namespace CashewsVerif.Decor.Soft
 
@@ -24,15 +30,17 @@ def init : St := { t := TtlMap.init, nexec := 0 }
 def save (c : Cfg) (t : TtlMap) (id : Nat) : TtlMap :=
   t.write kMain (pack3 t.now id (t.now + c.soft)) (some c.ttl)
 
-/-- `try: result = await func(…) except exceptions: <serve cached or raise>
+/-- the part of `_wrap` from the moment the function has finished (the state's clock is that moment):
+`try: result = await func(…) except exceptions: cached = await backend.get(…); <serve cached or raise>
 else: if condition(result, …): _ttl = ttl_to_seconds(ttl, …, result=result); …; backend.set(…); return result`
 — the store step is outside `except exceptions`: what it raises propagates, the store is left alone -/
-def execute (c : Cfg) (s : St) (o : Outcome) (cached : Option (Nat × Nat × Nat)) : St × CallOut :=
+def execute (c : Cfg) (s : St) (o : Outcome) : St × CallOut :=
   let id := s.nexec
   match o with
   | .ok => ({ t := save c s.t id, nexec := id + 1 }, ⟨.fresh s.t.now id, true, false⟩)
   | .listed =>
-    match cached with
+    -- `cached = await backend.get(_cache_key, default=_empty)`   (again, now)
+    match cached3 s.t with
     | some (stamp, id0, _) => ({ s with nexec := id + 1 }, ⟨.stored stamp id0, true, false⟩)
     | none => ({ s with nexec := id + 1 }, ⟨.raised .listed, true, false⟩)
   | .unlisted => ({ s with nexec := id + 1 }, ⟨.raised .unlisted, true, false⟩)
@@ -40,16 +48,18 @@ def execute (c : Cfg) (s : St) (o : Outcome) (cached : Option (Nat × Nat × Nat
   | .storeFails _ l => ({ s with nexec := id + 1 }, ⟨.storeErr l, true, false⟩)
 
 /-- `_wrap` -/
-def call (c : Cfg) (s : St) (o : Outcome) : St × CallOut :=
+def call (c : Cfg) (s : St) (o : Outcome) (d : Nat) : St × CallOut :=
+  -- `cached = await backend.get(_cache_key, default=_empty)`   (at the start of the call)
   match cached3 s.t with
   | some (stamp, id0, inner) =>
     -- `if soft_expire_at > datetime.now(timezone.utc): return result`
     if s.t.now < inner then (s, ⟨.stored stamp id0, false, false⟩)
-    else execute c s o (some (stamp, id0, inner))
-  | none => execute c s o none
+    -- `result = await func(*args, **kwargs)` takes `d` ticks
+    else execute c { s with t := advance s.t d } o
+  | none => execute c { s with t := advance s.t d } o
 
 def step (c : Cfg) (s : St) : DOp → St × Ans
-  | .call o => let r := call c s o; (r.1, .call r.2)
+  | .call o d => let r := call c s o d; (r.1, .call r.2)
   | .adv dt => ({ s with t := advance s.t dt }, .ok)
   | .done _ _ => (s, .done .noop)     -- soft has no background work
 
